@@ -2,10 +2,10 @@
 # tools/vet_r3.sh <area letter> <k> : vets /tmp/r3-<area>-out/m<k>.* (round 3: the property id is on the
 # demo's second line "// breaks: Cxx") by handing it to vet_seeded.sh under that property.
 A="$1"; K="$2"
-SRC="/tmp/r3-$A-out"
+SRC="/tmp/${R:-r3}-$A-out"
 ID=$(sed -n 2p "$SRC/m${K}_demo_test.go" | grep -o "C[0-9][0-9]" | head -1)
 [ -n "$ID" ] || { echo "VET r3 $A m$K: no property id"; exit 2; }
 mkdir -p /tmp/seed-$ID-out
 cp "$SRC/m$K.patch" /tmp/seed-$ID-out/m9$K.patch; cp "$SRC/m${K}_demo_test.go" /tmp/seed-$ID-out/m9${K}_demo_test.go; cp "$SRC/m$K.md" /tmp/seed-$ID-out/m9$K.md 2>/dev/null
 echo "r3 $A m$K -> $ID"
-TAG="r3${A}" "$(dirname "$0")/vet_seeded.sh" "$ID" "9$K"
+TAG="${R:-r3}${A}" "$(dirname "$0")/vet_seeded.sh" "$ID" "9$K"
